@@ -574,7 +574,9 @@ func main() {
 		"NetworkInstrumenter.RecordAndFinish", "AddRPCTagsToContext", "TagsFromContext",
 		"NewTLSConnectionWithTLSConfig", "gzipCompressor.getGzipReader", "packetizer.NextFrame",
 		"CancellableTimer.StartConstant", "CancellableTimer.StartRandom", "CancellableTimer.FireNow",
-		"CancellableTimer.Wait"}
+		"CancellableTimer.Wait", "Connection.waitForConnection", "Connection.getReconnectChanLocked",
+		"NewTLSConnection", "NewTLSConnectionWithDialable",
+		"NewTLSConnectionWithConnectionLogFactory", "copyTLSConfig"}
 	for i, fn := range ordFns {
 		sep := ";"
 		if i == len(ordFns)-1 {
@@ -717,6 +719,71 @@ func main() {
 			})
 		}
 		fmt.Fprintf(&out, "Definition loop_assigns_stop_err : bool := %v.\n", loopAssign)
+	}
+	// conditions, returns and go-statement guards of selected functions (closures included), in source order
+	{
+		selFns := []string{"Connection.getReconnectChanLocked", "Connection.checkForRetry", "Connection.isConnectedLocked",
+			"Connection.waitForConnection", "Connection.doReconnect", "Connection.DoCommand", "Connection.connect",
+			"Connection.Shutdown", "ConnectionTransportTLS.Dial",
+			"CancellableTimer.Wait", "CancellableTimer.StartRandom", "isWithFireNow"}
+		var conds, rets, gos []string
+		for _, fn := range selFns {
+			fd, ok := fm[fn]
+			if !ok {
+				missing = append(missing, fn)
+				continue
+			}
+			var cs, rs, gs []string
+			var guards []string
+			var walk func(n ast.Node)
+			walk = func(n ast.Node) {
+				if n == nil {
+					return
+				}
+				switch x := n.(type) {
+				case *ast.IfStmt:
+					if x.Init != nil {
+						walk(x.Init)
+					}
+					cs = append(cs, coqString(exprString(x.Cond)))
+					guards = append(guards, exprString(x.Cond))
+					walk(x.Body)
+					guards = guards[:len(guards)-1]
+					if x.Else != nil {
+						guards = append(guards, "!("+exprString(x.Cond)+")")
+						walk(x.Else)
+						guards = guards[:len(guards)-1]
+					}
+					return
+				case *ast.ReturnStmt:
+					var es []string
+					for _, e := range x.Results {
+						es = append(es, exprString(e))
+					}
+					rs = append(rs, coqString(strings.Join(es, ", ")))
+				case *ast.GoStmt:
+					var g []string
+					for _, c := range guards {
+						g = append(g, coqString(c))
+					}
+					gs = append(gs, "("+coqString(exprString(x.Call.Fun))+", ["+strings.Join(g, "; ")+"])")
+				}
+				ast.Inspect(n, func(m ast.Node) bool {
+					if m == n || m == nil {
+						return true
+					}
+					walk(m)
+					return false
+				})
+			}
+			walk(fd.Body)
+			conds = append(conds, "  ("+coqString(fn)+", ["+strings.Join(cs, "; ")+"])")
+			rets = append(rets, "  ("+coqString(fn)+", ["+strings.Join(rs, "; ")+"])")
+			gos = append(gos, "  ("+coqString(fn)+", ["+strings.Join(gs, "; ")+"])")
+		}
+		fmt.Fprintf(&out, "Definition cond_census : list (string * list string) := [\n%s\n].\n", strings.Join(conds, ";\n"))
+		fmt.Fprintf(&out, "Definition return_census : list (string * list string) := [\n%s\n].\n", strings.Join(rets, ";\n"))
+		fmt.Fprintf(&out, "Definition go_guards : list (string * list (string * list string)) := [\n%s\n].\n", strings.Join(gos, ";\n"))
 	}
 	fmt.Fprintln(&out)
 	var ms []string
